@@ -22,4 +22,28 @@ CHECKS = {
         "note": "Trusts: the transcription (checked by vectors, not by proof), Apalache/Z3, CPython as QA oracle for the "
                 "spec table and as secondary oracle for arbitrary finite f64 pairs (only dyadic floats are specified exactly).",
     },
+    "C05": {
+        "level": "model_checking",
+        "technique": "TLA+ spec PySeq: TLC exhaustive window (slice/index/range/dict, saturation + translation lemmas) + Apalache "
+                     "step lemma over all i64; table replay into every kernel copy; recorded calls validated by TLC (PySeqTrace)",
+        "text": "PySeq.tla defines Python's slice/index/range (CPython adjustment + walk, independently characterised), "
+                "transcribes the slice copies and proves saturation/translation lemmas on a window; Apalache proves for all "
+                "i64 that the saturating cursor of the real loops steps exactly like Python's unbounded cursor. Every table "
+                "row, with i64 extremes substituted at window edges, is replayed into all copies; random recorded calls are "
+                "validated against the spec by TLC.",
+        "note": "Trusts the renderer of scalar ids to chars, the induction from the one-step lemma to whole loops (argued in "
+                "DESIGN.md), Apalache/Z3; surface syntax s[a:b:c] is covered by the C01/C02 end-to-end layers.",
+    },
+    "C19": {
+        "level": "model_checking",
+        "technique": "TLA+ spec Positions (definitions by counting): TLC exhaustive over all documents up to 5 scalars; full "
+                     "conversion tables compared cell by cell with src/lsp/diagnostics.rs",
+        "text": "Positions.tla defines offset<->position and span->range by counting scalars and newlines and TLC checks "
+                "round-trip, strict monotonicity, agreement with counting and in-range/ordered ranges on every document over "
+                "1-4 byte scalars, LF, CR up to the bound; the real functions must reproduce the complete tables (every byte "
+                "offset incl. mid-scalar and past the end, every position in a window, every span incl. empty/reversed) and "
+                "both diagnostic renderers are run on every span.",
+        "note": "Bounded document length (quick 4, thorough 5 scalars); the code is two single loops over scalars with no "
+                "length-dependent branch. Terminal column (byte-based by construction) is recorded, not judged.",
+    },
 }
